@@ -319,6 +319,66 @@ def run_special(arg):
     return cfgname, n, viols
 
 
+PARTIAL = {
+    # only an element list is configured (the bundled minimal example does this): the marker list stays empty and
+    # no default symbol becomes known
+    "elements-only": (["H", "C"], []),
+    "elements-only-upper": (["E", "H", "HE", "C", "O"], []),
+    "elements-with-one-marker": (["H", "C"], ["CR"]),
+}
+
+
+def run_partial(arg):
+    """configurations in which one of the two global lists is empty: names over the configured symbols are read as
+    usual, names that need a symbol of the built-in default lists (He, Si, ortho/para labels ...) are refused, and
+    the configured lists are what Species reports afterwards.  Set through the Species class and through Network."""
+    name, via = arg
+    from ..harness.render import reset_globals, quiet
+
+    reset_globals()
+    from naunet.species import Species
+
+    elements, pseudo = PARTIAL[name]
+    viols = []
+    n = 0
+    with quiet():
+        if via == "species":
+            Species.set_known_elements(list(elements))
+            Species.set_known_pseudoelements(list(pseudo))
+        else:
+            from naunet.network import Network
+
+            Network(elements=list(elements), pseudo_elements=list(pseudo))
+        he = "HE" if "HE" in elements else None
+        good = [("H", {"H": 1}, 0), ("H2", {"H": 2}, 0), ("CH", {"C": 1, "H": 1}, 0), ("C2H2", {"C": 2, "H": 2}, 0), ("CH+", {"C": 1, "H": 1}, 1), ("H-", {"H": 1}, -1), ("#CH", {"C": 1, "H": 1}, 0)]
+        if he:
+            good += [("HE", {"HE": 1}, 0), ("HE+", {"HE": 1}, 1)]
+        for nm, ec, q in good:
+            n += 1
+            try:
+                sp = Species(nm)
+                got = (dict(sp.element_count), sp.charge)
+            except Exception as e:
+                viols.append((f"C08:partial-lists:{name}:raises", f"[{name} via {via}] Species({nm!r}) raises {e!r}", {"partial": name, "via": via}))
+                continue
+            if got != (ec, q):
+                viols.append((f"C08:partial-lists:{name}:misread", f"[{name} via {via}] Species({nm!r}): (element_count, charge) = {got}, expected {(ec, q)}", {"partial": name, "via": via}))
+        bad = ["He", "Si", "oH2", "pH2", "HD", "C2N", "Hg", "CO", "Mg", "H2*", "c-C3H2", "NH3"]
+        if "O" in elements:
+            bad = [b for b in bad if b != "CO"]
+        for nm in bad:
+            n += 1
+            try:
+                sp = Species(nm)
+            except Exception:
+                continue
+            viols.append((f"C08:partial-lists:{name}:unconfigured-symbol-accepted", f"[{name} via {via}] Species({nm!r}) is accepted (element_count={dict(sp.element_count)}) although only {elements} + {pseudo} are configured", {"partial": name, "via": via}))
+        n += 1
+        if list(Species.known_elements()) != list(elements) or list(Species.known_pseudoelements()) != list(pseudo):
+            viols.append((f"C08:partial-lists:{name}:lists-changed", f"[{name} via {via}] after use the lists are {Species.known_elements()} / {Species.known_pseudoelements()}, configured {elements} / {pseudo}", {"partial": name, "via": via}))
+    return n, viols
+
+
 def run(ctx):
     nparts = 8
     work = [(c, ctx.tier, p, nparts) for c in CONFIGS for p in range(nparts)]
@@ -334,6 +394,10 @@ def run(ctx):
             per[cfgname] += j
             ctx.absorb(viols)
         for cfgname, n, viols in pool.imap_unordered(run_special, [(c, ctx.tier) for c in CONFIGS]):
+            tot += n
+            judged += n
+            ctx.absorb(viols)
+        for n, viols in pool.imap_unordered(run_partial, [(nm, via) for nm in PARTIAL for via in ("species", "network")]):
             tot += n
             judged += n
             ctx.absorb(viols)
@@ -354,6 +418,9 @@ def run(ctx):
 
 
 def replay(ctx, case):
+    if "partial" in case:
+        ctx.absorb(run_partial((case["partial"], case["via"]))[1])
+        return
     from ..harness.render import reset_globals, quiet
 
     cfgname = case["config"]
